@@ -301,6 +301,49 @@ def _probe(np, sparse, a, ad, b, bd, A):
     raise ValueError(which)
 
 
+def _seq_zero(np, sparse, a, ad, b, bd, A):
+    """a zero-length contraction (its all-zero result is built by tensordot's zero-size shortcut, or an empty COO is
+    built from caller-supplied unsigned coords), then a second operation that joins it with / shifts it like an
+    ordinary array, then a read: every step is a valid NumPy call"""
+    x = vlib.build_array(A["x"])
+    xd = vlib.spec_dense(A["x"])
+
+    def run(P, Q, X, lib, is_sparse):
+        prod = A["prod"]
+        if prod == "dot":
+            r = lib.dot(P, Q)
+        elif prod == "matmul":
+            r = lib.matmul(P, Q)
+        elif prod == "tensordot":
+            r = lib.tensordot(P, Q, axes=1)
+        else:   # an empty array built by the caller with unsigned coordinates
+            if is_sparse:
+                r = sparse.COO(np.zeros((X.ndim, 0), dtype=np.dtype(prod)), np.zeros(0, dtype=np.int64), shape=X.shape)
+            else:
+                r = np.zeros(X.shape, dtype=np.int64)
+        pair = [r, X] if A["order"] == "rx" else [X, r]
+        sec = A["second"]
+        if sec == "concatenate":
+            y = lib.concatenate(pair, axis=A["axis"])
+        elif sec == "stack":
+            y = lib.stack(pair, axis=A["axis"])
+        elif sec == "roll":
+            y = lib.roll(r, 1, axis=A["axis"])
+        elif sec == "add":
+            y = r + X
+        else:
+            y = lib.where(X > 0, X, r) if is_sparse else np.where(X > 0, X, r)
+        third = A["third"]
+        if third == "sum":
+            return y.sum(axis=0)
+        if third == "getitem":
+            return y[0] if y.shape[0] else y[...]
+        if third == "T":
+            y = y.T
+        return y.todense() if is_sparse else y
+    return (lambda: run(a, b, x, sparse, True)), (lambda: run(ad, bd, xd, np, False))
+
+
 API = {
     "getitem": lambda np, sparse, a, ad, b, bd, A: ((lambda: a[dec_index(A["idx"])]), (lambda: ad[dec_index(A["idx"])])),
     "sum": _reduce("sum"), "max": _reduce("max"), "min": _reduce("min"), "any": _reduce("any"),
@@ -345,6 +388,7 @@ API = {
     "sort": lambda np, sparse, a, ad, b, bd, A: ((lambda: sparse.sort(a, axis=dec_axis(A["axis"]))), (lambda: np.sort(ad, axis=dec_axis(A["axis"])))),
     "take": lambda np, sparse, a, ad, b, bd, A: ((lambda: sparse.take(a, np.array(A["ind"], dtype=np.intp), axis=dec_axis(A["axis"]))), (lambda: np.take(ad, np.array(A["ind"], dtype=np.intp), axis=dec_axis(A["axis"])))),
     "clip": lambda np, sparse, a, ad, b, bd, A: ((lambda: sparse.clip(a, A["lo"], A["hi"])), (lambda: np.clip(ad, A["lo"], A["hi"]))),
+    "seq_zero": _seq_zero,
     "ctor_coo": _ctor_coo,
     "ctor_gcxs": _ctor_gcxs,
     "random": _random,
@@ -610,6 +654,24 @@ def gen_cases(tier, seed):
         if prng.random() < 0.3:
             add("vecdot", with_fmt(s1, "coo"), with_fmt(s2, "coo"), axis=prng.choice([-1, 0, 1, -3]))
     # nonzero fill operands (documented limitation)
+    # ---- multi-step sequences through an EMPTY intermediate result (zero-length contraction, or an empty array with
+    # caller-supplied unsigned coords): product -> join / shift -> read.  Each step alone is covered above; the
+    # sequence checks that the intermediate object is an ordinary array for the next operation.
+    srng = random.Random(seed * 17 + 5)
+    for m_, n_ in itertools.product([0, 1, 2], repeat=2):
+        pa = vlib.gen_array_spec(srng, shape=(m_, 0), density=0.0)
+        pb = vlib.gen_array_spec(srng, shape=(0, n_), density=0.0)
+        xs = vlib.gen_array_spec(srng, shape=(m_, n_), density=0.8)
+        seconds = [("concatenate", ax) for ax in (0, 1, -1)] + [("stack", ax) for ax in (0, 1, 2)] + \
+                  [("roll", 0), ("roll", 1), ("add", None), ("where", None)]
+        for prod in ("dot", "matmul", "tensordot", "uint64", "uint8"):
+            for sec, ax in seconds:
+                for order in (("rx", "xr") if sec in ("concatenate", "stack") else ("rx",)):
+                    thirds = ["todense", "sum", "getitem", "T"] if tier != "quick" else [srng.choice(["todense", "todense", "sum", "getitem", "T"])]
+                    for third in thirds:
+                        for fa_, fb_ in ((("coo", "coo"),) if tier == "quick" else (("coo", "coo"), ("gcxs", "gcxs"), ("coo", "gcxs"))):
+                            add("seq_zero", with_fmt(pa, fa_), with_fmt(pb, fb_), prod=prod, second=sec, axis=ax, order=order,
+                                third=third, x=with_fmt(xs, "coo"))
     # ---- broadcast_to / elementwise
     bshapes = [list(t) for k in range(0, 4) for t in itertools.product([0, 1, 2], repeat=k)]
     for sp in specs:
@@ -979,53 +1041,33 @@ def clause_of(case, code, r):
         return f"hang:{op}"
     if code == 11:
         return f"interpreter_crash:{op}"
-    if op in ("dot", "matmul", "tensordot") and cls == "ZeroDivisionError" and "gcxs" in (fa, b.get("format")):
-        return "D20_gcxs_zero_extent_zerodivision"
-    if op == "dot" and code == 40 and (nda == 0 or ndb == 0):
-        return "dot_0d_operand_rejected"
     if op == "idx_dtype_op":
         if A["which"] == "gcxs_getitem" and real == "AttributeError":
             return "gcxs_getitem_unsigned_indices"
         if A.get("dt") == "uint64" and cls == "TypeError":
             return "uint64_promotes_to_float"
         return f"narrow_idx_dtype:{A['which']}:{real if cls else 'accepted'}"
-    if op in ("sum", "max", "min", "any", "prod", "mean") and fa == "gcxs":
-        if code == 20:
-            return "gcxs_reduce_invalid_axes_accepted"
-        if real == "NotImplementedError":
-            return "gcxs_reduce_repeated_axes_notimplemented"
-        if code == 40 and A.get("axis") == []:
-            return "gcxs_reduce_empty_axis_tuple"
-    if op in ("concatenate", "stack") and real == "AssertionError":
-        return "concat_stack_shape_mismatch_assertion"
-    if real == "AttributeError" and fa == "gcxs" and op in ("broadcast_to", "squeeze"):
-        return f"gcxs_missing_method:{op}"
-    if real == "AttributeError" and fa == "gcxs" and op in ("triu", "tril"):
-        return "triu_tril_gcxs_attributeerror"
-    if op == "reshape":
-        if code == 20 and list(A["shape"]).count(-1) >= 2:
-            return "reshape_two_unknown_dims_accepted"
-        if real == "OverflowError":
-            return "gcxs_reshape_minus1_zero_extent_overflow"
-    if op == "broadcast_to" and code == 20:
-        return "broadcast_to_more_dims_than_target"
-    if op == "einsum":
-        if real == "KeyError":
-            return "einsum_too_many_subscripts_keyerror"
-        if code == 20:
-            return "einsum_invalid_subscripts_accepted"
-    if op == "diagonal" and code == 20:
-        return "diagonal_bad_axes_accepted"
-    if op in ("getitem", "dok_set") and fa == "dok" and code == 20:
-        return "dok_fancy_index_unchecked"
-    if op == "squeeze" and code == 40 and fa == "coo":
-        return "squeeze_negative_axis_rejected"
-    if op in ("flip", "squeeze") and code == 20:
-        return f"repeated_axes_accepted:{op}"
+    omsg = ((r.get("np") or {}).get("msg") or "")
+    if op == "einsum" and code == 20 and "more dimensions than subscripts" in omsg:
+        return "einsum_fewer_subscripts_than_dims_accepted"      # f21ab0d checks the other direction only
+    if op == "einsum" and code == 20 and "includes output subscript" in omsg:
+        return "einsum_repeated_output_subscript_accepted"
+    if op == "matmul" and code == 20 and (nda == 0 or ndb == 0):
+        return "matmul_0d_operand_accepted"                      # since 32f480f dot() multiplies by a 0-d operand; matmul delegates
+    if op == "getitem" and fa == "gcxs" and code == 40 and "'NoneType' has no len()" in msg:
+        return "gcxs_getitem_newaxis_typeerror"                  # since 9bee746: len(self.indptr) on a 1-d result that got a new axis
     if op == "ctor_gcxs" and code == 20:
+        # 9bee746 rejects an index pointer of the wrong LENGTH; what stays unvalidated (O(nnz) checks): index out of
+        # range / negative, pointer not monotone / not ending at nnz / not starting at 0, unsorted or repeated
+        # entries in a row, data/indices length mismatch, n-d input without compressed axes
+        sh, ca = A["shape"], A["caxes"]
+        if len(sh) >= 2 and ca and all(0 <= x < len(sh) for x in ca):
+            rows = 1
+            for x in ca:
+                rows *= sh[x]
+            if len(A["indptr"]) != rows + 1:
+                return "accepted_invalid:ctor_gcxs:indptr_length"
         return "gcxs_ctor_unvalidated"
-    if op == "probe":
-        return "check_compressed_axes_set_order"
     kind = {20: "accepted_invalid", 21: "wrong_exception_class", 40: "valid_rejected", 41: "internal_error",
             50: "class_differs_from_model", 51: "model_accepts", 52: "model_rejects", 53: "spec_vs_numpy"}.get(code, str(code))
     extra = (":" + real) if code in (21, 41) else ""
@@ -1152,7 +1194,7 @@ def api_group(c):
     op = c["op"]
     if op == "dot":
         return 0
-    if op in ("matmul", "tensordot", "idx_dtype_op", "kron", "outer", "vecdot", "einsum"):
+    if op in ("matmul", "tensordot", "idx_dtype_op", "kron", "outer", "vecdot", "einsum", "seq_zero"):
         return 1
     return 2
 
@@ -1335,7 +1377,7 @@ def _strip(c):
 
 
 def _short(c):
-    d = {"op": c["op"], "args": c.get("args")}
+    d = {"op": c["op"], "args": {k: (v if k != "x" else {"shape": v["shape"], "nnz": len(v["data"])}) for k, v in (c.get("args") or {}).items()}}
     for k in ("a", "b"):
         if c.get(k):
             d[k] = {"shape": c[k]["shape"], "format": c[k]["format"], "nnz": len(c[k]["data"]), "caxes": c[k].get("caxes")}
